@@ -139,9 +139,10 @@ void Runner::op_poll(Thread *t, int idx, const Op &op_in, OpRes &res) {
     std::set<int> seen;
     for (size_t i = 0; i + 1 < op_in.v.size(); i += 2) {
       int hi = (int) op_in.v[i];
-      if (hi < 0 || (size_t) hi >= hs.size() || hs[(size_t) hi].st == LS_NONE || hs[(size_t) hi].st == LS_INCHILD || seen.count(hi)) continue;
-      seen.insert(hi);
-      op_c.v.push_back(hi);
+      bool null_source = hi < 0 || (size_t) hi >= hs.size() || hs[(size_t) hi].st == LS_NONE;
+      if (!null_source && (hs[(size_t) hi].st == LS_INCHILD || seen.count(hi))) continue;
+      if (!null_source) seen.insert(hi);
+      op_c.v.push_back(null_source ? -1 : hi);  // process-less sources stay: reproc++ expresses them as moved-from objects
       op_c.v.push_back(op_in.v[i + 1]);
     }
   }
